@@ -45,10 +45,13 @@ def execute(cfgs, parallel=None, timeout=240, env_extra=None, label='run'):
                 nm = pl['system_name']
                 pl['system'] = hreplay.extract(*hreplay.SYSTEMS[nm], nm)
             spec = dict(spec, sched_sock=os.path.join(wd, 's.sock'))
+            gate = os.path.join(wd, 'gate')
+            ee['VERIF_MAIN_GATE'] = gate
             sch = hreplay.PlanScheduler(
                 spec['sched_sock'], pl['jobs'], pl['system'], pl['beh'],
                 os.path.join(wd, 'events.ndjson'),
-                patience=10 + 10 * runs.calibrate())
+                patience=10 + 10 * runs.calibrate(), gate=gate,
+                settle=0.3 + 0.1 * runs.calibrate())
         try:
             r = runs.run_ddsmt(wd, text, spec, opts, timeout=timeout,
                                env_extra=ee, ext=meta.get('ext', '.smt2'),
@@ -62,6 +65,7 @@ def execute(cfgs, parallel=None, timeout=240, env_extra=None, label='run'):
                 if meta.get('plan'):
                     meta['diverged'] = sch.diverged
                     meta['controlled'] = sch.controlled
+                    meta['late_releases'] = sch.late_releases
         if r.cmdlog and not r.cmdlog[0].get('verdict') and \
                 not spec.get('mode') == 'never':
             # a configuration of the harness, not a finding: every candidate
